@@ -553,8 +553,6 @@ func (g *GoBackNConn) receivePacketsForever() error { // nolint:gocyclo
 			g.pongTicker.Pause()
 		}
 
-		g.resendTicker.Reset(g.timeoutManager.GetResendTimeout())
-
 		switch m := msg.(type) {
 		case *PacketData:
 			switch m.Seq == g.recvSeq {
@@ -642,6 +640,16 @@ func (g *GoBackNConn) receivePacketsForever() error { // nolint:gocyclo
 		case *PacketACK:
 			gotValidACK := g.sendQueue.processACK(m.Seq)
 			if gotValidACK {
+				// The window moved forward, so the resend
+				// timeout starts anew for the new base. It must
+				// not be restarted by packets that acknowledge
+				// nothing (data, pings, stale ACKs): a peer that
+				// keeps talking would otherwise postpone the
+				// retransmission of a lost packet forever.
+				g.resendTicker.Reset(
+					g.timeoutManager.GetResendTimeout(),
+				)
+
 				// Send a signal to indicate that new
 				// ACKs have been received.
 				select {
